@@ -101,7 +101,11 @@ func c13Claims(c *choice.Ctx, st *Stats, a *refmodel.Claims, cl psatoken.IClaims
 	}
 	// per-claim getter classes
 	for _, claim := range allClaims {
-		got := getterClass(cl, claim)
+		var got string
+		if pn, pv := safely(func() { got = getterClass(cl, claim) }); pn {
+			c.Failf(fmt.Sprintf("C13:panic:P%d:%s:%s", a.P, how, claim), "getter of %s panicked instead of returning a classified error: %v\n%s", claim, pv, desc)
+			continue
+		}
 		st.Trans.Add(1)
 		want := "nil"
 		if pcls, bad := probs[claim]; bad {
@@ -413,6 +417,26 @@ func init() {
 			return func(c *choice.Ctx) { c13Setters(c, c13stats, p) }, nil
 		}
 	}
+	for _, p := range []int{1, 2} {
+		p := p
+		Scenarios[fmt.Sprintf("c13.after-prior-calls.p%d", p)] = func() (choice.Scenario, func() any) {
+			g := newCoarseGen(p, 1)
+			return func(c *choice.Ctx) {
+				k := 1 + c.Choose("prior-activity", len(polluteNames)-1)
+				a := g.gen(c, "")
+				if a.ProfileInvalid {
+					return
+				}
+				lit, err := realise(a)
+				if err != nil {
+					return
+				}
+				c13stats.StateStr(polluteNames[k] + a.String())
+				pollute(k)
+				c13Claims(c, c13stats, a, lit, "literal:after:"+polluteNames[k])
+			}, nil
+		}
+	}
 	Scenarios["c13.filter"] = func() (choice.Scenario, func() any) {
 		return func(c *choice.Ctx) { c13Filter(c, c13stats) }, nil
 	}
@@ -423,6 +447,9 @@ func init() {
 		b := 2
 		if thorough(r) {
 			b = 3
+		}
+		for _, p := range []int{1, 2} {
+			exploreChoiceOpts(r, fmt.Sprintf("c13.after-prior-calls.p%d", p), 2, dl, 1)
 		}
 		for _, p := range []int{1, 2} {
 			for bl := 0; bl < 4; bl++ {
